@@ -8,7 +8,7 @@
            l.mergeStats(r), -2 pops s and pushes s.mergeStats(s). *)
 From Coq Require Import ZArith List Bool String.
 From Coq Require Import PrimFloat.
-Require Import PV.Base.Val PV.Base.Num PV.Base.NumSqrt PV.Model.Stats.
+Require Import PV.Base.Val PV.Base.Num PV.Base.SqrtOps PV.Model.Stats.
 Import ListNotations.
 Open Scope Z_scope.
 
